@@ -106,8 +106,18 @@ type kase struct {
 	VAbort  float64         `json:"vabort"`   // probability weight of voluntary aborts in free mode
 }
 
+// a broadcast goroutine of the library that got an error for an Abort/Commit request sleeps one second
+// before it looks at the version again (and then sends the request again or gives up)
+type sleeper struct {
+	from, to int
+	typ      string
+	stRaw    int64
+	since    time.Time
+}
+
 type world struct {
 	mu      sync.Mutex
+	sleep   []sleeper
 	k       *kase
 	nodes   map[int]*node
 	ids     []int
@@ -205,6 +215,12 @@ func (w *world) arrive(g *gate, request resources.TwoPCRequest) *pend {
 	} else {
 		p.tick = len(n.ticks) + 1
 		n.ticks[p.stRaw] = p.tick
+	}
+	for i, sl := range w.sleep {
+		if sl.from == p.from && sl.to == p.to && sl.typ == p.typ && sl.stRaw == p.stRaw {
+			w.sleep = append(w.sleep[:i], w.sleep[i+1:]...)
+			break
+		}
 	}
 	w.pends = append(w.pends, p)
 	r := w.tagOf(p)
@@ -484,7 +500,13 @@ func (w *world) settledNow() bool {
 		return true
 	}
 	for _, n := range w.nodes {
-		if n.inflight() != w.held(n.id) {
+		h, inf, sl := w.held(n.id), n.inflight(), 0
+		for _, x := range w.sleep {
+			if x.from == n.id && time.Since(x.since) < 3*time.Second {
+				sl++
+			}
+		}
+		if inf < h || inf > h+sl {
 			return false
 		}
 	}
@@ -672,6 +694,9 @@ func (w *world) release(p *pend, how string) bool {
 	r["e"] = "rel"
 	r["res"] = res
 	w.log(r)
+	if res == "err" && p.typ != "PreCommit" {
+		w.sleep = append(w.sleep, sleeper{p.from, p.to, p.typ, p.stRaw, time.Now()})
+	}
 	w.mu.Unlock()
 	p.cmd <- how
 	if !w.waitFor(func() bool { return p.state == stReleased }, w.wd) {
